@@ -205,6 +205,15 @@ enum Lit {
     Path(String),
     Arith(String),
 }
+impl Lit {
+    /// a string literal written with a quote kind its body does not contain
+    fn fit(self) -> Lit {
+        match self {
+            Lit::Str(q, s) => Lit::Str(if s.contains('"') { '\'' } else if s.contains('\'') { '"' } else { q }, s),
+            o => o,
+        }
+    }
+}
 #[derive(Clone)]
 enum Atom {
     Cmp(String, &'static str, Lit),
@@ -678,6 +687,42 @@ const STR_META: [&str; 42] = [
     "Hello, world", ",", "a += b", "+=", "rule \"x\" { when a then b; }", "rule y {", "salience 99", "no-loop", "when x", "exists(a)", "!x", "defmodule M { export: all }",
     "[1, 2]", "a != b && c", "x > 1", "f(x) == 2", "key=value", "\u{1}0\u{2}", "\u{1}1\u{2} \u{1}+0\u{2}", "\u{1}41_\u{2}", "\u{1}", "_\u{2}", "don't } stop",
 ];
+/// string-literal bodies for the ARGUMENTS of a function-call leaf `f(a, b) op v` / `test(f(a, b))`: the argument list is cut out
+/// with `[^)]*`, split at ',' and trimmed AFTER the masking — the separators themselves, and everything else a condition scanner
+/// looks for, must stay inside the literal (seeded C04-9: unmask before the split)
+const ARG_PAYLOADS: [&str; 34] = [
+    "red,green", "Doe, John", ",", ",,", "a,b,c", ", ", " ,", "x,", ",x", "1,000.50", "true, false", "f(a, b)", "a) , (b", "), (", "a && b, c || d",
+    "a;b,c", "{a, b}", "a // b, c", "/* a, b */", "it's, ok", "say \"hi\", you", "when x, then y", "x then y, z", "User.age, 3", "[1, 2], [3]",
+    "== 1, != 2", "test(f(a, b))", "g(x, 'y') == 1", "\u{1}0\u{2},\u{1}1\u{2}", "日本,語", "é, ü", "  padded , both  ", "rule \"x\" { when a, b then c; }", "in [1, 2]",
+];
+/// a literal as written: the quote kind that fits the body (there is no escape syntax), else `prefer`
+fn quote_lit(body: &str, prefer: char) -> String {
+    let q = if body.contains('"') { '\'' } else if body.contains('\'') { '"' } else { prefer };
+    format!("{}{}{}", q, body, q)
+}
+/// one argument of a function-call / test leaf, as written: field, number, identifier or STRING LITERAL (adversarial body one in two)
+fn g_call_arg(rng: &mut Rng) -> String {
+    match rng.below(8) {
+        0 | 1 => path(rng),
+        2 => if rng.chance(1, 3) { g_float(rng) } else if rng.chance(1, 3) { format!("-{}", rng.below(50)) } else { rng.below(50).to_string() },
+        3 => pk(rng, &IDENTS).to_string(),
+        4 => pk(rng, &["true", "false", "null"]).to_string(),
+        _ => {
+            let b = match rng.below(4) { 0 | 1 => pk(rng, &ARG_PAYLOADS), 2 => pk(rng, &STR_META), _ => pk(rng, &STR_SAFE) };
+            quote_lit(b, if rng.chance(1, 3) { '\'' } else { '"' })
+        }
+    }
+}
+/// an argument vector with at most two dotted fields (keeps the leaf short: F-C05h) 
+fn g_call_args(rng: &mut Rng, max: u64) -> Vec<String> {
+    let mut paths = 0;
+    (0..rng.below(max + 1)).map(|_| loop {
+        let a = g_call_arg(rng);
+        let is_path = !a.starts_with('"') && !a.starts_with('\'') && a.contains('.') && a.chars().next().map_or(false, |c| c.is_alphabetic());
+        if is_path { if paths >= 2 { continue; } paths += 1; }
+        break a;
+    }).collect()
+}
 fn path(rng: &mut Rng) -> String {
     let mut s = format!("{}.{}", pk(rng, &OBJS), pk(rng, &FIELDS));
     if rng.chance(1, 5) {
@@ -823,11 +868,11 @@ fn g_atom(rng: &mut Rng) -> Atom {
             Atom::Arith(g_arith(rng, false), g_sym_op(rng), v)
         }
         11 | 12 => {
-            let args: Vec<String> = (0..rng.below(4)).map(|_| match rng.below(3) { 0 => path(rng), 1 => rng.below(50).to_string(), _ => pk(rng, &IDENTS).to_string() }).collect();
+            let args: Vec<String> = if rng.chance(1, 2) { g_call_args(rng, 4) } else { (0..rng.below(4)).map(|_| match rng.below(3) { 0 => path(rng), 1 => rng.below(50).to_string(), _ => pk(rng, &IDENTS).to_string() }).collect() };
             Atom::Call(pk(rng, &FUNCS).to_string(), args, OPS[rng.below(11) as usize].0, if rng.chance(1, 2) { g_scalar(rng) } else { g_str(rng) })
         }
         13 => {
-            let args: Vec<String> = (0..rng.below(3)).map(|_| if rng.chance(1, 2) { path(rng) } else { pk(rng, &IDENTS).to_string() }).collect();
+            let args: Vec<String> = if rng.chance(1, 2) { g_call_args(rng, 4) } else { (0..rng.below(3)).map(|_| if rng.chance(1, 2) { path(rng) } else { pk(rng, &IDENTS).to_string() }).collect() };
             Atom::Test(pk(rng, &FUNCS).to_string(), args)
         }
         14 => Atom::MCount(path2(rng), g_sym_op(rng), Lit::Int(rng.below(20) as i64)),
@@ -1039,6 +1084,123 @@ fn gen(rng: &mut Rng, n: usize, tier: &str) -> Vec<String> {
             }
         }
     }
+    // function-call leaves `f(a, b) op v` and `test(f(a, b))` with STRING-LITERAL arguments: every adversarial body (separators of the
+    // argument list, of the condition, of the statement list, comment markers, keywords, the other quote kind, placeholder
+    // look-alikes) as an argument of both leaf forms, in every argument position, bare and under ! / && / || / exists / forall
+    let bodies: Vec<&str> = ARG_PAYLOADS.iter().chain(STR_META.iter()).chain(["", "it's", "say \"hi\"", "a // b", "/* not a comment */", "日本語"].iter()).copied().collect();
+    for (bi, b) in bodies.iter().enumerate() {
+        for form in 0..2usize {
+            let k = bi * 2 + form;
+            let lit = quote_lit(b, if (bi + form) % 3 == 0 { '\'' } else { '"' });
+            // the literal alone / first / in the middle / last; every fifth vector has a second literal argument
+            let plain = |rng: &mut Rng| match rng.below(3) { 0 => path2(rng), 1 => rng.below(50).to_string(), _ => pk(rng, &IDENTS).to_string() };
+            let mut args: Vec<String> = match k % 4 {
+                0 => vec![lit.clone()],
+                1 => vec![lit.clone(), plain(rng)],
+                2 => vec![plain(rng), lit.clone(), plain(rng)],
+                _ => vec![plain(rng), lit.clone()],
+            };
+            if k % 5 == 4 {
+                let b2 = pk(rng, &ARG_PAYLOADS);
+                let at = rng.below(args.len() as u64 + 1) as usize;
+                args.insert(at, quote_lit(b2, if rng.chance(1, 2) { '\'' } else { '"' }));
+            }
+            let f = pk(rng, &FUNCS).to_string();
+            let atom = if form == 0 {
+                let o = if k % 3 == 0 { OPS[rng.below(11) as usize].0 } else { g_sym_op(rng) };
+                let v = if o == "in" {
+                    Lit::Arr(vec![Lit::Str('"', pk(rng, &ARG_PAYLOADS).to_string()).fit(), Lit::Int(g_int(rng))])
+                } else if is_word_op(o) || k % 2 == 0 {
+                    Lit::Str('"', pk(rng, &ARG_PAYLOADS).to_string()).fit()
+                } else {
+                    g_scalar(rng)
+                };
+                Atom::Call(f, args, o, v)
+            } else {
+                Atom::Test(f, args)
+            };
+            let me = Box::new(Cond::Atom(atom));
+            let other = |rng: &mut Rng| Box::new(Cond::Atom(Atom::Cmp(path2(rng), g_sym_op(rng), if rng.chance(1, 2) { g_str(rng) } else { Lit::Int(g_int(rng)) })));
+            let mut r = base_rule(rng);
+            r.name = format!("F{}", k);
+            r.cond = match k % 7 {
+                0 | 1 => *me,
+                2 => Cond::Not(me),
+                3 => Cond::And(me, other(rng)),
+                4 => Cond::And(other(rng), Box::new(Cond::Or(me, other(rng)))),
+                5 => Cond::Ex(me),
+                _ => Cond::Fa(Box::new(Cond::Or(other(rng), me))),
+            };
+            out.push(assemble("G", &[r], rng, Lay((k % 3) as u8)));
+        }
+    }
+    // … and the same bodies in every argument position of every ACTION form that has an argument list (each list is cut out with
+    // `\(([^)]*)\)`-like captures and split at ',' while the literals are masked): custom / function-call actions (alone, first,
+    // middle, last, every argument a literal), Log, ActivateAgendaGroup / CompleteWorkflow / ScheduleRule names, `$Obj.method(args)`
+    // (stream M:method: open finding F-C04i drops the object, the ARGUMENTS must still be the ones written), and the list-like values:
+    // array elements of an assignment / of `+=` / of an `in` list / of a function-call condition's value, plain assigned values
+    let mut meta_args = Vec::new();
+    for (bi, b) in bodies.iter().enumerate() {
+        let q = |j: usize| if (bi + j) % 3 == 0 { '\'' } else { '"' };
+        let lit = |j: usize| Lit::Str(q(j), b.to_string()).fit();
+        let other = |rng: &mut Rng| match rng.below(6) {
+            0 => Lit::Int(g_int(rng)),
+            1 => Lit::Float(g_float(rng)),
+            2 => Lit::Path(path2(rng)),
+            3 => Lit::Ident(pk(rng, &IDENTS).to_string()),
+            4 => Lit::Bool(rng.chance(1, 2)),
+            _ => Lit::Str('"', pk(rng, &ARG_PAYLOADS).to_string()).fit(),
+        };
+        // the literal alone / first / in the middle / last / all arguments literals
+        let vector = |rng: &mut Rng, j: usize| -> Vec<Lit> {
+            match (bi + j) % 5 {
+                0 => vec![lit(j)],
+                1 => vec![lit(j), other(rng)],
+                2 => vec![other(rng), lit(j), other(rng)],
+                3 => vec![other(rng), lit(j)],
+                _ => vec![lit(j), Lit::Str('"', pk(rng, &ARG_PAYLOADS).to_string()).fit(), lit(j + 1)],
+            }
+        };
+        let dq = !b.contains('"'); // the workflow / agenda forms are written with double quotes
+        for j in 0..8usize {
+            let mut r = base_rule(rng);
+            r.name = format!("S{}_{}", bi, j);
+            let mut stream = "G";
+            match j {
+                0 => r.stmts = vec![Stmt::Call(pk(rng, &ACTFUNCS).to_string(), vector(rng, j))],
+                1 => r.stmts = vec![Stmt::Log(lit(j))],
+                2 => {
+                    // two statements: the `;` between them is the only separator
+                    r.stmts = vec![Stmt::Call(pk(rng, &ACTFUNCS).to_string(), vector(rng, j + 2)), Stmt::Set(path(rng), lit(j))];
+                }
+                3 => {
+                    let mut xs = vector(rng, j);
+                    if bi % 2 == 0 { xs.retain(|x| !matches!(x, Lit::Path(_) | Lit::Ident(_) | Lit::Bool(_))); }
+                    r.stmts = vec![if bi % 3 == 0 { Stmt::Append(path(rng), Lit::Arr(xs)) } else { Stmt::Set(path(rng), Lit::Arr(xs)) }];
+                }
+                4 => {
+                    let mut xs = vector(rng, j);
+                    xs.retain(|x| !matches!(x, Lit::Path(_) | Lit::Ident(_) | Lit::Bool(_) | Lit::Float(_)));
+                    r.cond = Cond::Atom(if bi % 2 == 0 { Atom::Cmp(path2(rng), "in", Lit::Arr(xs)) } else { Atom::Call(pk(rng, &FUNCS).to_string(), vec![path2(rng)], "in", Lit::Arr(xs)) });
+                }
+                5 => {
+                    if !dq { continue; }
+                    r.stmts = vec![match bi % 3 { 0 => Stmt::Activate(b.to_string()), 1 => Stmt::Complete(b.to_string()), _ => Stmt::Schedule(rng.below(100000), b.to_string()) }];
+                }
+                6 => {
+                    stream = "M:method";
+                    r.stmts = vec![Stmt::Method(pk(rng, &OBJS).to_string(), pk(rng, &["setSpeed", "add", "notify", "f2"]).to_string(), vector(rng, j))];
+                }
+                _ => {
+                    // a literal argument in the condition AND in the action of one rule (the placeholders are numbered per text)
+                    r.cond = Cond::Atom(Atom::Test(pk(rng, &FUNCS).to_string(), vec![quote_lit(pk(rng, &ARG_PAYLOADS), '"'), path2(rng)]));
+                    r.stmts = vec![Stmt::Append(path(rng), lit(j)), Stmt::Call(pk(rng, &ACTFUNCS).to_string(), vector(rng, j + 1))];
+                }
+            }
+            let case = assemble(stream, &[r], rng, Lay(((bi + j) % 3) as u8));
+            if stream == "G" { out.push(case) } else { meta_args.push(case) }
+        }
+    }
     let maxdepth = if tier == "thorough" { 6 } else { 5 };
     // the findings stream goes last (check.py reports the first dozen failure groups only)
     let mut meta = Vec::new();
@@ -1062,6 +1224,7 @@ fn gen(rng: &mut Rng, n: usize, tier: &str) -> Vec<String> {
         let lay = Lay(rng.below(3) as u8);
         out.push(assemble("G", &rules, rng, lay));
     }
+    out.extend(meta_args);
     out.extend(meta);
     out
 }
@@ -1215,6 +1378,36 @@ fn corpus() -> Vec<String> {
                 Stmt::Set("Y".into(), Lit::Arith("U.first + \" \" + U.last".into())),
                 Stmt::Set("Z".into(), Lit::Arith("\"\u{1}0\u{2}\" + U.n + \"}\"".into())),
             ];
+        })),
+        // string literals as ARGUMENTS (corpus/C04/arglists.case): the argument list of a function-call / test(...) leaf and of every
+        // action form is split at ',' with the literals masked — seeded C04-9 restored them before the split
+        one("G", "rule \"A\" { when containsAny(User.tags, \"red,green\") == true then Y = 2; }", base(&|r| {
+            r.cond = Cond::Atom(Atom::Call("containsAny".into(), vec!["User.tags".into(), "\"red,green\"".into()], "==", Lit::Bool(true)));
+            r.stmts = y2.clone();
+        })),
+        one("G", "rule \"A\" { when label(User.name, 'Doe, John', 3) == \"x\" then Y = 2; }", base(&|r| {
+            r.cond = Cond::Atom(Atom::Call("label".into(), vec!["User.name".into(), "'Doe, John'".into(), "3".into()], "==", Lit::Str('"', "x".into())));
+            r.stmts = y2.clone();
+        })),
+        one("G", "rule \"A\" { when test(matchAny(User.tags, \"a,b\", 'c) && (d')) then notify(\"x, y\", 'p;q', 3); Log(\"a, b\"); }", base(&|r| {
+            r.cond = Cond::Atom(Atom::Test("matchAny".into(), vec!["User.tags".into(), "\"a,b\"".into(), "'c) && (d'".into()]));
+            r.stmts = vec![
+                Stmt::Call("notify".into(), vec![Lit::Str('"', "x, y".into()), Lit::Str('\'', "p;q".into()), Lit::Int(3)]),
+                Stmt::Log(Lit::Str('"', "a, b".into())),
+            ];
+        })),
+        one("G", "rule \"A\" { when X == 1 then ScheduleRule(500, \"a, b\"); ActivateAgendaGroup(\"g, h\"); CompleteWorkflow(\"w(1), z\"); Y = [\"a,b\", 'c]', 2]; }", base(&|r| {
+            r.cond = x1.clone();
+            r.stmts = vec![
+                Stmt::Schedule(500, "a, b".into()),
+                Stmt::Activate("g, h".into()),
+                Stmt::Complete("w(1), z".into()),
+                Stmt::Set("Y".into(), Lit::Arr(vec![Lit::Str('"', "a,b".into()), Lit::Str('\'', "c]".into()), Lit::Int(2)])),
+            ];
+        })),
+        one("M:method", "rule \"A\" { when X == 1 then $Car.set(\"a, b\", 2); }", base(&|r| {
+            r.cond = x1.clone();
+            r.stmts = vec![Stmt::Method("Car".into(), "set".into(), vec![Lit::Str('"', "a, b".into()), Lit::Int(2)])];
         })),
         // empty file, comment-only file
         "G - 0".to_string(),
